@@ -161,7 +161,9 @@ def clause_queue_storage_agreement(prog, rep):
         for rl in stor:
             if "p" in rl.args[-1]:
                 og = A.origins(prog, f, rl.args[-1]["p"][0], scope=None, max_frames=0)
-                if og.has_call(lambda x: last_seg(x.self_adt) == "VecDeque" and x.name in ("iter", "iter_mut", "range", "range_mut", "get", "index", "back", "front")):
+                # a *release* of entries iterated out of the queue (a loop over iter()/range()); the single entry handed to the
+                # storage rollback by index is not a release of the others
+                if K.is_storage_trait_call(rl, "release_group_snapshot") and og.has_call(lambda x: last_seg(x.self_adt) == "VecDeque" and x.name in ("iter", "iter_mut", "range", "range_mut")):
                     released_in_place.append(rl)
                 for c in f.live_calls():
                     if c.name in REMOVERS_RETURNING and og.has_call(lambda x, c=c: x is c or (x.bb == c.bb and x.name == c.name)):
